@@ -86,7 +86,13 @@ func VerifUnreadablePersistMarkerProtects() {
 	// mark it through the API, then let the marker content be arbitrary
 	_, err = cs.SetCacheFileMetadata("f0", metadata.NewPersist(true))
 	verifMust(err)
-	marker := verif.Bytes("marker", verif.Len("marker-len", 0, 5))
+	// shapes of a damaged "true": a prefix of it (torn write), optionally
+	// followed by one arbitrary byte (garbled tail); includes "", "t", "true"
+	// and, through the arbitrary byte, "0", "1", "f", "F", "T"
+	marker := []byte("true"[:verif.Len("marker-prefix", 0, 4)])
+	if verif.Choice("garbled-tail", 2) == 1 {
+		marker = append(marker, verif.Byte("tail"))
+	}
 	verifMust(os.WriteFile(filepath.Join(dir, "f0", "_persist"), marker, 0o664))
 
 	switch verif.Choice("remover", 3) {
